@@ -232,8 +232,9 @@ def units():
                          ('insert__pE_rE', ['C04', 'C05', 'C11', 'C02', 'C09'], 0), ('insert__pE_rrE', ['C04', 'C05', 'C11', 'C02', 'C09'], 0),
                          ('erase__pE_pE_penable_if_is_same_pE_pE__value__type', ['C04', 'C11', 'C02'], 0),
                          ('extract__rE', ['C04', 'C11', 'C02'], 0), ('extract__pE', ['C04', 'C11', 'C02'], 0),
-                         ('insert__rr%s__node_type' % SS, ['C04', 'C05', 'C11', 'C02', 'C09'], 0), ('insert__pE_rr%s__node_type' % SS, ['C04', 'C05', 'C11', 'C02', 'C09'], 0)]:
-        short = m.split('__')[0] + ('_' + m.split('__')[1].replace(SS, 'SS')[:9] if m.startswith(('insert', 'erase', 'extract')) else '')
+                         ('insert__rr%s__node_type' % SS, ['C04', 'C05', 'C11', 'C02', 'C09'], 0), ('insert__pE_rr%s__node_type' % SS, ['C04', 'C05', 'C11', 'C02', 'C09'], 0),
+                         ('emplace__rri32', ['C04', 'C05', 'C11', 'C02', 'C09'], 0), ('emplace_hint__pE_rri32', ['C04', 'C05', 'C11', 'C02', 'C09'], 0)]:
+        short = m.split('__')[0] + ('_' + m.split('__')[1].replace(SS, 'SS')[:9] if m.startswith(('insert', 'erase', 'extract', 'emplace')) else '')
         add('ss.%s.NR' % short, SS + '__' + m, props, 3, 'StaticVectorBase_E_u8', 'u8', 'ElemNR',
             throws_reachable=m.startswith('insert'))
         us[-1]['cfg'] = 'sets17'
@@ -241,6 +242,9 @@ def units():
         us[-1]['defs'].update({'WITH_SETS': '1', 'SS_T': 'struct ' + SS, 'SS_N': '4', 'RESULT_KIND': str(rk), 'FINDFUNCTOR_T': 'struct ' + FF,
                                'FINDFUNCTOR_CALL(fp, e)': FF + '__op_call__rE_c(fp, e)',
                                'SETNODE_T': 'struct FlatSet_E_GhostCmp_A_Vector_E_A_u32_Dyn_0__node_type'})
+        if m.startswith('emplace'):
+            us[-1]['defs'].update({'KEY_FLOATING': '1', 'KEY_AT_END': '1'})
+            us[-1]['throws_reachable'] = True
     # ---- BOUNDED stand-ins (concrete L0, loops unwound up to 'bounded'): merge and bulk paths of the sets.  Never counted as proved.
     FS8 = 'FlatSet_E_GhostCmp_A_Vector_E_A_u8_Dyn_0'
     FS32 = 'FlatSet_E_GhostCmp_A_Vector_E_A_u32_Dyn_0'
